@@ -186,6 +186,9 @@ def check(ctx):
     ordering_keys(ctx)
     exports(ctx)
     invalidate.check_cached_function_key(ctx)
+    # same design space in another process -> same on-disk cache entries: completeness of the settings cache key
+    from . import c12 as _c12
+    _c12.cache_keys(ctx)
     edges.check_walks(ctx, categories={'copy-export'})
     ctx.floor('A8', 14, 'hash / fingerprint components')
     ctx.floor('A4', 4, 'copy / export walks')
